@@ -591,7 +591,8 @@ def oracle_call(ctx, rec, spec, o, ob, sigma_now, nmodes_now):
             gap_ok = full.size <= k or d[idx[k]] - d[idx[k - 1]] > 1e-6 * sc
             if W.size != k:
                 bad('sparse path returns the requested number of modes', k, int(W.size), cls)
-            elif gap_ok and not match_multiset(W, want, 1e-6 * sc):
+            elif gap_ok and spec['kwargs'].get('mode', 'normal') == 'normal' and not match_multiset(W, want, 1e-6 * sc):
+                # (buckling / cayley: scipy selects by the magnitude of the transformed eigenvalue, not by |lambda - sigma|)
                 bad('sparse path returns the eigenvalues closest to the shift', sorted(map(repr, want)), sorted(map(repr, W)), cls)
         ctx.oracle_validation['ARPACK returns the nmodes eigenvalues closest to sigma (vs dense spectrum)'] = \
             ctx.oracle_validation.get('ARPACK returns the nmodes eigenvalues closest to sigma (vs dense spectrum)', 0) + 1
@@ -1044,6 +1045,143 @@ def gen_scaled_specs(pym, rec, rng, quick):
     return out
 
 
+# ---- every constructor keyword on BOTH paths (deterministic plan, every run)
+OPT_NMODES = [None, 0, 1, 2, 'n', 'n+3']
+OPT_SIGMA = [None, 0.0, 1.7, -0.4]
+OPT_MODE = ['normal', 'buckling', 'cayley']
+OPT_DENSE = [('rsym', False), ('rsym', True), ('rgen', False), ('rgen', True), ('cherm', False), ('cherm', True),
+             ('cgen', False), ('cgen', True), ('csym', False), ('rsym', False)]
+OPT_SPARSE = [('rsym', False), ('rsym', True), ('cherm', False), ('cherm', True), ('rgen', False), ('rgen', True),
+              ('cgen', False), ('csym', False)]
+
+
+def _neutral(spec):
+    """the same history with the options that are documented as sparse-only left at their defaults"""
+    import copy
+    sp = copy.deepcopy(spec_public(spec))
+    sp['kwargs'].update(nmodes=None, sigma=None, mode='normal')
+    sp['ops'] = [o for o in sp['ops'] if o['op'] == 'call']
+    return sp
+
+
+def gen_option_specs(pym, rec, rng, quick):
+    """the plan does not depend on the seed, the matrices do:
+    (1) DENSE pencils of every class, standard and generalised, n = 4..6, each with nmodes = None, 0, 1, 2 (< n), n, n + 3,
+        combined (covering: the other keywords cycle with the pencil index) with sigma None / 0 / 1.7 / -0.4, mode
+        normal / buckling / cayley, hermitian None / True / False (True only where it is true) and the sorting functions
+        default / desc / abs / rev / dist / firstk / const-permutation; nmodes, sigma and mode are documented as sparse-only:
+        the complete spectrum is returned, EVERY column is normalised, sign-fixed and ordered, and the output equals the one
+        of a module built with the neutral options (compared column by column);
+    (2) dense histories of two calls (changed matrix) and histories that use ONE module for a sparse and then a dense
+        matrix of the same class and size (the sparse call stores its defaults nmodes = 6 / sigma = 0 on the module);
+    (3) SPARSE pencils of every class: nmodes 1 / 2 / 3 / None, sigma non-zero / None / 0.0 (pencil translated so that the
+        shift lands on zero), hermitian flag given (True / False, consistent), sorting functions desc / abs, Hermitian ones also with mode buckling (A shifted positive definite) and cayley (non-zero
+        shift: scipy's precondition), and the loud values nmodes = 0, n, n + 3 (ARPACK refuses: dispatch compared only)."""
+    import copy
+    out = []
+    reps = 1 if quick else 3
+    for rep in range(reps):
+        for j, (cls, gen) in enumerate(OPT_DENSE):
+            n = 4 + (j + rep) % 3
+            sorts = [['default'], ['desc'], ['abs'], ['rev'], ['dist', 0.35], ['firstk', 3], ['const', None], ['default']]
+            for attempt in range(80):
+                A, B = gen_dense(rng, n, cls, gen, bcplx=bool((j + attempt) % 2))
+                A2 = A + np.diag(rng.uniform(0.3, 0.8, size=n))
+                if all(accept_pencil(rec, A, B, s_) for s_ in sorts[:5]):
+                    break
+            else:
+                continue
+            perm = [int(v) for v in rng.permutation(n)]
+            hermy = cls in ('rsym', 'cherm')
+            cplxv = cls in ('rgen', 'cgen', 'csym')
+            for i, nm in enumerate(OPT_NMODES):
+                nmv = n if nm == 'n' else (n + 3 if nm == 'n+3' else nm)
+                sort = copy.deepcopy(sorts[(i + 2 * j) % len(sorts)])
+                if sort[0] == 'const':
+                    sort[1] = perm
+                herm = ([None, True, None, False, None, True] if hermy else [None, False, None, None, False, None])[(i + j) % 6]
+                ops = [dict(op='call', A=enc_mat(A), B=None if B is None else enc_mat(B))]
+                if i % 3 == 1 and accept_pencil(rec, A2, B, sort):
+                    ops.append(dict(op='call', A=enc_mat(A2), B=None if B is None else enc_mat(B)))
+                out.append(dict(name=f'opt-dense-{rep}-{j}-{i}', stream='options', cls=cls + ('-gen' if gen else '-std'), n=n, neutral=True,
+                                kwargs=dict(hermitian=herm, nmodes=nmv, sigma=OPT_SIGMA[(i + j) % 4], mode=OPT_MODE[(i + j // 4) % 3]),
+                                sort=sort, ops=ops))
+        # (3) sparse pencils
+        for j, (cls, gen) in enumerate(OPT_SPARSE):
+            base = gen_small_sparse_spec(rec, rng, 5000 + j, False, force_shift=True, want_gen=gen, want_cls=cls)
+            if base is None:
+                continue
+            n = base['n']
+            base['ops'] = base['ops'][:1]
+            base['stream'] = 'options'
+            hermy = cls in ('rsym', 'cherm')
+            A0, B0 = dec_mat(pym, base['ops'][0]['A']), dec_mat(pym, base['ops'][0].get('B'))
+            w = finite_spectrum(rec, A0, B0)
+            variants = [dict(nmodes=1, hermitian=hermy, sort=['desc']),
+                        dict(nmodes=3, sort=['abs'], mode='cayley' if hermy else 'normal'),
+                        dict(nmodes=2, hermitian=hermy, mode='buckling' if hermy else 'normal', pd=hermy),
+                        dict(nmodes=[0, n, n + 3][j % 3]),
+                        dict(nmodes=None if n >= 9 else n - 3, hermitian=hermy if j % 2 else None),
+                        dict(nmodes=2, zero=True, sort=['desc'] if j % 2 else ['default'])]
+            for v, var in enumerate(variants):
+                sp = copy.deepcopy(base)
+                if var.get('pd'):      # buckling mode: ARPACK uses A as the inner product, A must be positive definite
+                    c = float(np.floor(w.real.min() - 1.0))
+                    sp = transform_spec(pym, sp, 1.0, 1.0, c, '')
+                    sp['stream'], sp['rel'] = 'options', False
+                    if sp['kwargs']['sigma'] == 0.0:
+                        continue
+                if var.get('zero'):    # the pencil translated so that the shift lands on 0: sigma = None / 0.0 (no factorisation of a shifted matrix)
+                    sp = transform_spec(pym, sp, 1.0, 1.0, float(sp['kwargs']['sigma']), '')
+                    sp['stream'], sp['rel'] = 'options', False
+                    sp['kwargs']['sigma'] = None if j % 2 else 0.0
+                sort = var.get('sort', ['default'])
+                if not accept_pencil(rec, A0, B0, sort, min_gap=0.03):
+                    sort = ['default']
+                sp['sort'] = sort
+                sp['kwargs'].update(nmodes=var['nmodes'], hermitian=var.get('hermitian'), mode=var.get('mode', 'normal'))
+                sp['name'] = f'opt-sparse-{rep}-{j}-{v}'
+                out.append(sp)
+            # (2) one module, first the sparse matrix, then the same matrix dense (storage changes, class and size do not)
+            if n <= 9 and cls != 'csym':
+                sp = copy.deepcopy(base)
+                o0 = sp['ops'][0]
+                od = copy.deepcopy(o0)
+                od['A']['sparse'] = False
+                if od.get('B') is not None:
+                    od['B']['sparse'] = False
+                sp['ops'] = [o0, od]
+                sp['kwargs'].update(nmodes=[None, 2, 3][j % 3] if n >= 9 else 2)
+                sp['name'] = f'opt-sparse-then-dense-{rep}-{j}'
+                out.append(sp)
+    return out
+
+
+def oracle_neutral(ctx, pym, spec, obs, seed):
+    """dense input: nmodes / sigma / mode are documented as sparse-only, so a module built with them must return what a
+    module built without them returns -- every eigenvalue and EVERY column (LAPACK is deterministic: same bits expected,
+    1e-12 allowed)"""
+    ref = run_spec(pym, _neutral(spec), seed)
+    got = [ob for ob in obs if ob is not None]
+    for c, (g, r) in enumerate(zip(got, ref)):
+        if is_sparse(g['A']):
+            continue
+        ctx.search_evaluations += 1
+        case = dict(spec=spec_public(spec), call=c)
+        go, ro = g['out'], r['out']
+        if isinstance(go, str) or isinstance(ro, str):
+            if go != ro and not (isinstance(go, str) and isinstance(ro, str)):
+                ctx.violation('impl-violates', 'EigenSolve._response', 'dense input: nmodes / sigma / mode change nothing', 'dense-options',
+                              case, expected=ro if isinstance(ro, str) else 'ok', got=go if isinstance(go, str) else 'ok')
+            continue
+        okW = go[0].shape == ro[0].shape and np.allclose(go[0], ro[0], rtol=1e-12, atol=1e-12 * max(1.0, np.abs(ro[0]).max() if ro[0].size else 1.0))
+        okQ = go[1].shape == ro[1].shape and np.allclose(go[1], ro[1], rtol=1e-12, atol=1e-12 * max(1.0, np.abs(ro[1]).max() if ro[1].size else 1.0))
+        if not (okW and okQ):
+            cols = [] if go[1].shape != ro[1].shape else [int(i) for i in range(ro[1].shape[1]) if not np.allclose(go[1][:, i], ro[1][:, i], rtol=1e-12, atol=1e-12)]
+            ctx.violation('impl-violates', 'EigenSolve._response', 'dense input: nmodes / sigma / mode change nothing', 'dense-options',
+                          dict(case, differing_columns=cols), expected=[repr(v) for v in ro[1].T.tolist()][:8], got=[repr(v) for v in go[1].T.tolist()][:8])
+
+
 def gen_malformed_spec(rec, rng, idx):
     kind = ['isotropic', 'b-indefinite', 'index-range', 'mode-nonherm', 'herm-flag-wrong', 'class-change', 'mixed-storage'][int(rng.integers(7))]
     kw = dict(hermitian=None, nmodes=None, sigma=None, mode='normal')
@@ -1104,7 +1242,11 @@ def run(ctx):
                 'standard (1e-4 .. 1e9), the shift scaled alike and non-zero, each once with a positive and once with a negative '
                 'shift (pencil translated by 2 sigma); pencils of order 1 with the tiny shifts +-1e-9, 5e-9, -2e-9, +-1e-12, +-1e-8, '
                 '9.9e-9, 1e-15, -4e-9, 2.5e-9, 1e-300, -1e-100 (each on a standard problem, every second one also on a generalised one); FE pencils in other units (K ~ 1e-3, M ~ 1e6, ...) with shifts of both signs; dense '
-                'pencils on other scales; tolerances relative to the scale of the compared quantity.')
+                'pencils on other scales; tolerances relative to the scale of the compared quantity.  Stream "options" (deterministic plan, every run): '
+                'every constructor keyword on BOTH paths: dense pencils of every class with nmodes None/0/1/2<n/n/n+3 x sigma None/0/1.7/-0.4 x mode '
+                'normal/buckling/cayley x hermitian None/True/False x 7 sorting functions (covering design), two-call histories, one module for a sparse '
+                'and then the same dense matrix; output also compared with a module built with neutral options; sparse pencils with nmodes 1/2/3/None, '
+                'sigma non-zero/None/0.0, hermitian flag, sorting desc/abs, buckling/cayley (Hermitian), loud nmodes 0/n/n+3.')
     ctx.assumptions += [
         'eigenvalues (and the keys of the sorting function) are well separated in generated cases: ties make argsort and the '
         'eigenvectors non-unique, which the property does not specify',
@@ -1115,6 +1257,8 @@ def run(ctx):
         'generalised sparse pencils with singular B (FE mass matrix with boundary rows) need more free dofs than ncv = max(2*nmodes+1, 20), '
         'otherwise ARPACK raises error -9999 (loud failure, not generated)',
         'sigma real; A - sigma B has condition number <= 1e5 in generated cases',
+        'mode buckling / cayley (sparse Hermitian): non-zero shift (scipy precondition), buckling with A shifted positive definite; "closest to the '
+        'shift" is compared against the dense spectrum in normal mode only (scipy selects by the magnitude of the transformed eigenvalue otherwise)',
         'scaled pencils (stream "scaled"): a (A - c B), b B from a generated pencil (A, B) of order 1, every shift mapped alike; '
         'eigenvalues of order 1e-9 .. 1e9; the entries of A stay >= 1e-4: a matrix whose entries are all below the ABSOLUTE tolerance '
         '1e-8 of matrix_is_diagonal / matrix_is_hermitian is classified diagonal / Hermitian whatever it is (known finding K06, C05)',
@@ -1184,6 +1328,7 @@ def run(ctx):
                 specs.append(s)
         # own generator: the plan above does not disturb the streams of the other generators
         specs += gen_scaled_specs(pym, rec, np.random.default_rng(ctx.seed + 7919), q)
+        specs += gen_option_specs(pym, rec, np.random.default_rng(ctx.seed + 104729), q)
 
     small, big = [], []      # (expr, spec)
     nval = 0
@@ -1241,6 +1386,22 @@ def run(ctx):
             ctx.case((spec['stream'], spec['sort'], expr[:20000]), nontrivial=(n >= 2),
                      sample=dict(name=spec['name'], cls=spec.get('cls'), sort=spec['sort'], kwargs=spec['kwargs'], coq=expr[:300]))
         ctx.count('stream:' + spec['stream'])
+        if spec['stream'] == 'options':
+            kw_ = spec['kwargs']
+            dn = 'sparse' if spec['ops'][0]['A'].get('sparse') else 'dense'
+            if len({bool(o['A'].get('sparse')) for o in spec['ops'] if o['op'] == 'call'}) > 1:
+                dn = 'sparse-then-dense'
+            n_ = spec.get('n', 0)
+            nm_ = kw_.get('nmodes')
+            ctx.count(f'options:{dn} nmodes ' + ('None' if nm_ is None else '0' if nm_ == 0 else '1' if nm_ == 1 else 'k<n' if nm_ < n_ else 'n' if nm_ == n_ else '>n'))
+            ctx.count(f'options:{dn} sigma ' + ('None' if kw_.get('sigma') is None else 'zero' if kw_['sigma'] == 0 else 'nonzero'))
+            ctx.count(f'options:{dn} mode ' + str(kw_.get('mode')))
+            ctx.count(f'options:{dn} hermitian ' + str(kw_.get('hermitian')))
+            ctx.count(f'options:{dn} sort ' + spec['sort'][0])
+            try:
+                oracle_neutral(ctx, pym, spec, obs, ctx.seed * 1000003 + si)
+            except Exception as e:
+                ctx.violation('correspondence', 'harness', 'oracle runs', 'options', dict(spec=spec_public(spec), error=repr(e)), theorem='harness')
         ctx.count('class:' + str(spec.get('cls')))
         ctx.count('sort:' + spec['sort'][0])
         ctx.count('instance:' + ('Q[i]' if info['cplx'] else 'Q'))
